@@ -439,6 +439,24 @@ type blkIn struct {
 	// other encoders used in the same process right before this block is written (pooled
 	// encoder state must not leak): tomsgpack | frommsgpack | tojson | writejson
 	Pre []string `json:"pre,omitempty"`
+	// header / transaction fields forced to their zero value (names below), and non-default
+	// values for the fields that block.Provider() pre-fills
+	Zero    []string `json:"zero,omitempty"`
+	Version string   `json:"version,omitempty"`
+	Chain   string   `json:"chain,omitempty"`
+}
+
+var zeroable = []string{"creation_date", "version", "chain_id", "round", "prev_hash", "miner_id", "state_hash", "signature",
+	"seed", "timeout_count", "lfmb_hash", "lfmb_round", "running_txn_count", "state_changes_count", "empty_txns",
+	"txn_chain_id", "txn_creation_date", "txn_value_fee_nonce", "txn_strings", "txn_version"}
+
+func hasZero(in blkIn, f string) bool {
+	for _, z := range in.Zero {
+		if z == f {
+			return true
+		}
+	}
+	return false
 }
 
 func mkBlock(in blkIn) *block.Block {
@@ -471,8 +489,66 @@ func mkBlock(in blkIn) *block.Block {
 		tx.Signature = "sig-" + t.Hash
 		b.Txns = append(b.Txns, tx)
 	}
+	for _, tx := range b.Txns {
+		tx.Version = "1.0"
+	}
 	for i := 0; i < in.Tickets; i++ {
 		b.VerificationTickets = append(b.VerificationTickets, &block.VerificationTicket{VerifierID: fmt.Sprintf("v%d", i), Signature: fmt.Sprintf("s%d-%s", i, in.Hash)})
+	}
+	b.RoundTimeoutCount = int(in.Round % 5)
+	if in.Version != "" {
+		b.Version = in.Version
+	}
+	if in.Chain != "" {
+		b.ChainID = in.Chain
+	}
+	for _, z := range in.Zero {
+		switch z {
+		case "creation_date":
+			b.CreationDate = 0
+		case "version":
+			b.Version = ""
+		case "chain_id":
+			b.ChainID = ""
+		case "round":
+			b.Round = 0
+		case "prev_hash":
+			b.PrevHash = ""
+		case "miner_id":
+			b.MinerID = ""
+		case "state_hash":
+			b.ClientStateHash = nil
+		case "signature":
+			b.Signature = ""
+		case "seed":
+			b.RoundRandomSeed = 0
+		case "timeout_count":
+			b.RoundTimeoutCount = 0
+		case "lfmb_hash":
+			b.LatestFinalizedMagicBlockHash = ""
+		case "lfmb_round":
+			b.LatestFinalizedMagicBlockRound = 0
+		case "running_txn_count":
+			b.RunningTxnCount = 0
+		case "state_changes_count":
+			b.StateChangesCount = 0
+		case "empty_txns":
+			b.Txns = []*transaction.Transaction{}
+		}
+		for _, tx := range b.Txns {
+			switch z {
+			case "txn_chain_id":
+				tx.ChainID = ""
+			case "txn_creation_date":
+				tx.CreationDate = 0
+			case "txn_value_fee_nonce":
+				tx.Value, tx.Fee, tx.Nonce, tx.Status = 0, 0, 0, 0
+			case "txn_strings":
+				tx.ClientID, tx.ToClientID, tx.TransactionData, tx.TransactionOutput, tx.OutputHash, tx.Signature, tx.PublicKey = "", "", "", "", "", "", ""
+			case "txn_version":
+				tx.Version = ""
+			}
+		}
 	}
 	if in.MB {
 		mb := block.NewMagicBlock()
@@ -573,7 +649,7 @@ func runStore(h hist, dir string, kinds map[string]int) string {
 			order = append(order, in.Hash)
 		}
 		last[in.Hash] = b
-		if in.MB && in.Round == in.MBStart {
+		if b.MagicBlock != nil && b.Round == b.MagicBlock.StartingRound {
 			kinds["store-write-magic-block-copy"]++
 			if _, ok := last[in.MBHash]; !ok {
 				order = append(order, in.MBHash)
@@ -585,6 +661,9 @@ func runStore(h hist, dir string, kinds map[string]int) string {
 		want := last[hash]
 		got, err := st.Read(hash)
 		if err != nil {
+			if os.Getenv("VERIF_DEBUG") != "" {
+				fmt.Fprintln(os.Stderr, "READ ERR", err, "zero:", h.Blocks)
+			}
 			if fail == "" {
 				fail = "store-read-failed"
 			}
@@ -880,6 +959,23 @@ func genStore(r *vh.Rand) hist {
 			if r.Chance(1, 3) {
 				in.MBStart = in.Round - 1 // carries a magic block, not its starting round
 			}
+		}
+		// every field at its zero value, one at a time (cycling) and in combination, and values
+		// that differ from what block.Provider() pre-fills
+		switch r.Intn(4) {
+		case 0:
+			in.Zero = []string{zeroable[(i+int(in.Round))%len(zeroable)]}
+		case 1:
+			for _, z := range zeroable {
+				if r.Chance(1, 3) {
+					in.Zero = append(in.Zero, z)
+				}
+			}
+		case 2:
+			in.Zero = append([]string{}, zeroable...)
+		}
+		if r.Bool() {
+			in.Version, in.Chain = "2.7", hx(32)
 		}
 		for k := r.Intn(4); k > 0; k-- {
 			in.Pre = append(in.Pre, []string{"tomsgpack", "frommsgpack", "tojson", "writejson", "tomsgpack"}[r.Intn(5)])
